@@ -762,6 +762,8 @@ class Exec:
         return z_and(*res)
 
     def compare(self, op, a, b):
+        if (isinstance(a, Opaque) or isinstance(b, Opaque)) and isinstance(op, (ast.Lt, ast.LtE, ast.Gt, ast.GtE)):
+            raise Unsupported("ordering comparison with an opaque value")
         if hasattr(a, "hv_compare"):
             return a.hv_compare(self, op, b, False)
         if hasattr(b, "hv_compare"):
